@@ -11,7 +11,7 @@ namespace Mhd.PP
 theorem quiescent_cases {c : Cfg} (hc : CfgOk c) {pp : PP} {R : Bytes} (hb : MBase c pp) (hI : MInv c pp R)
     (hq : Quiescent pp) :
     pp.buf = [] ∨
-    (∃ Bd tl, Bd.length + 4 < c.size ∧ pp.buf.length < 2 + Bd.length ∧ R = sDashDash ++ Bd ++ tl) ∨
+    (∃ Bd : Bytes, Bd.length + 4 < c.size ∧ pp.buf.length < 2 + Bd.length ∧ 2 + Bd.length ≤ R.length) ∨
     (∃ lines Z, lineEnd pp.buf = pp.buf.length ∧ (∀ ln ∈ lines, LineOk c.size ln) ∧ R = linesEnc lines ++ cCR :: Z) ∨
     (∃ Bd v off tl, 1 ≤ Bd.length ∧ Bd.length + 4 < c.size ∧ FreshFor Bd v ∧ off ≤ v.length ∧
       scanBoundary pp.buf Bd c.size 0 = .partialAt 0 ∧ R = v.drop off ++ sCRLFDashDash ++ (Bd ++ tl)) := by
@@ -22,10 +22,10 @@ theorem quiescent_cases {c : Cfg} (hc : CfgOk c) {pp : PP} {R : Bytes} (hb : MBa
       have hX := rnok_inactive hr hrn
       subst hX
       cases hm with
-      | bnd0 hs he hm hX2 =>
+      | bnd0 pre hs he hm hX2 hpre =>
         rcases hq with ⟨h | h, x⟩ | ⟨h | h, x⟩ | ⟨h, x⟩ | ⟨h, x⟩ | ⟨h, x⟩
         all_goals first | (rw [hs] at h; cases h; done) | skip
-        exact Or.inr (Or.inl ⟨c.B, _, hc.bs, by rw [← hb.bnd]; exact x, hX2⟩)
+        exact Or.inr (Or.inl ⟨c.B, hc.bs, by rw [← hb.bnd]; exact x, by rw [hX2]; simp [sDashDash]; omega⟩)
       | hdr done it rest lines hsp hd hs hl hX2 =>
         rcases hq with ⟨h | h, x⟩ | ⟨h | h, x⟩ | ⟨h, x⟩ | ⟨h, x⟩ | ⟨h, x⟩
         all_goals first | (rcases hs with ⟨hs, _⟩ | ⟨hs, _⟩ <;> (rw [hs] at h; cases h; done)) | skip
@@ -50,7 +50,7 @@ theorem quiescent_cases {c : Cfg} (hc : CfgOk c) {pp : PP} {R : Bytes} (hb : MBa
         all_goals first | (rw [hs] at h; cases h; done) | skip
         obtain ⟨nb', hn', hlt⟩ := x
         rw [hn] at hn'; cases hn'
-        exact Or.inr (Or.inl ⟨nb, _, ns, hlt, hX2⟩)
+        exact Or.inr (Or.inl ⟨nb, ns, hlt, by rw [hX2]; simp [sDashDash]; omega⟩)
       | nhdr done ls name ct nb inner rest idone q qs lines hsp hin hd hn hs hl hX2 =>
         rcases hq with ⟨h | h, x⟩ | ⟨h | h, x⟩ | ⟨h, x⟩ | ⟨h, x⟩ | ⟨h, x⟩
         all_goals first | (rcases hs with ⟨hs, _⟩ | ⟨hs, _⟩ | ⟨hs, _⟩ <;> (rw [hs] at h; cases h; done)) | skip
@@ -68,7 +68,7 @@ theorem quiescent_cases {c : Cfg} (hc : CfgOk c) {pp : PP} {R : Bytes} (hb : MBa
       | nnext done rest hsp hd hs hX2 =>
         rcases hq with ⟨h | h, x⟩ | ⟨h | h, x⟩ | ⟨h, x⟩ | ⟨h, x⟩ | ⟨h, x⟩
         all_goals first | (rw [hs] at h; cases h; done) | skip
-        exact Or.inr (Or.inl ⟨c.B, _, hc.bs, by rw [← hb.bnd]; exact x, hX2⟩)
+        exact Or.inr (Or.inl ⟨c.B, hc.bs, by rw [← hb.bnd]; exact x, by rw [hX2]; simp [sDashDash]; omega⟩)
     | fin0 hd hr hds hR => rw [hr] at hrn; cases hrn
     | fin1 hd hr hds hR => rw [hr] at hrn; cases hrn
     | fin2 hd hs hr =>
@@ -80,7 +80,7 @@ theorem quiescent_cases {c : Cfg} (hc : CfgOk c) {pp : PP} {R : Bytes} (hb : MBa
 theorem quiescent_not_full {c : Cfg} (hc : CfgOk c) {pp : PP} {pend : Bytes} (hb : MBase c pp)
     (hI : MInv c pp (pp.buf ++ pend)) (hq : Quiescent pp) : pp.buf.length < c.size := by
   have hbs := hc.bs
-  rcases quiescent_cases hc hb hI hq with h | ⟨Bd, tl, h1, h2, _⟩ | ⟨lines, Z, hle, hl, hR⟩ | ⟨Bd, v, off, tl, _, h2, _, _, hs, _⟩
+  rcases quiescent_cases hc hb hI hq with h | ⟨Bd, h1, h2, _⟩ | ⟨lines, Z, hle, hl, hR⟩ | ⟨Bd, v, off, tl, _, h2, _, _, hs, _⟩
   · rw [h]; simp; omega
   · omega
   · cases lines with
@@ -121,7 +121,7 @@ theorem afterB_ne_nil (B : Bytes) (ps : List Item) : afterB B ps ≠ [] := by
     delivered every field -/
 theorem quiescent_final {c : Cfg} (hc : CfgOk c) {pp : PP} (hb : MBase c pp) (hI : MInv c pp (pp.buf ++ []))
     (hq : Quiescent pp) : pp.state = .done ∧ Delivers pp.evs (flat c.items) := by
-  rcases quiescent_cases hc hb hI hq with h | ⟨Bd, tl, _, h, hR⟩ | ⟨lines, Z, hle, hl, hR⟩ |
+  rcases quiescent_cases hc hb hI hq with h | ⟨Bd, _, h, hR⟩ | ⟨lines, Z, hle, hl, hR⟩ |
       ⟨Bd, v, off, tl, hB1, hBs, hocc, hoff, hs, hR⟩
   · rw [h] at hI
     cases hI with
@@ -133,7 +133,7 @@ theorem quiescent_final {c : Cfg} (hc : CfgOk c) {pp : PP} (hb : MBase c pp) (hI
         · cases h
       subst hX
       cases hm with
-      | bnd0 hs he hm hX2 => have := congrArg List.length hX2; simp [sDashDash] at this
+      | bnd0 pre hs he hm hX2 hpre => have := congrArg List.length hX2; simp [sDashDash] at this
       | hdr done it rest lines hsp hd hs hl hX2 => have := congrArg List.length hX2; simp at this
       | chk done it rest hsp hd hs hm hi hX2 =>
         cases it <;> (have := congrArg List.length hX2; simp [itemBody, sCRLFDashDash, sDashDash] at this)
@@ -152,8 +152,7 @@ theorem quiescent_final {c : Cfg} (hc : CfgOk c) {pp : PP} (hb : MBase c pp) (hI
     | nfin0 done rest hsp hd hr hds hR => cases hR
     | nfin1 done rest hsp hd hr hds hR => cases hR
   · exfalso
-    have := congrArg List.length hR
-    simp [sDashDash] at this
+    simp only [List.append_nil] at hR
     omega
   · exfalso
     rw [List.append_nil] at hR
@@ -377,11 +376,13 @@ theorem create_mp_facts (n : Nat) (ctype : Bytes) (pp0 : PP) (hc : create n ctyp
           · omega
 
 
-/-- **Round trip for rendered bodies — form fields and nested multipart/mixed containers, every split.** -/
-theorem multipart_items_roundtrip (n : Nat) (ctype : Bytes) (pp0 : PP) (items : List Item) (chunks : List Bytes)
-    (hc : create n ctype = some pp0) (hu : pp0.isUrl = false) (hB : 1 ≤ pp0.boundary.length)
+/-- the round trip with a preamble `pre` before the first delimiter in which `"--" ++ B` does not start -/
+theorem multipart_items_roundtrip_gen (n : Nat) (ctype : Bytes) (pp0 : PP) (items : List Item) (chunks : List Bytes)
+    (pre : Bytes) (hc : create n ctype = some pp0) (hu : pp0.isUrl = false) (hB : 1 ≤ pp0.boundary.length)
     (hit : ∀ it ∈ items, ItemOk (n + 4) pp0.boundary it)
-    (hch : chunks.flatten = encodeItems pp0.boundary items) :
+    (hpre : ∀ k, k < pre.length → slice (pre ++ (sDashDash ++ pp0.boundary ++ afterB pp0.boundary items)) k
+      (k + (2 + pp0.boundary.length)) ≠ sDashDash ++ pp0.boundary)
+    (hch : chunks.flatten = pre ++ encodeItems pp0.boundary items) :
     ∃ pp, run n ctype chunks = some (pp, true) ∧ pp.fault = none ∧ Delivers pp.evs (flat items) ∧
       ∀ pre ch post, chunks = pre ++ ch :: post → (feed (feedAll pp0 pre) ch).2 = true := by
   obtain ⟨c1, c2, c3, c4, c5, c6, c7, c8, c9⟩ := create_mp_facts n ctype pp0 hc hu
@@ -390,12 +391,39 @@ theorem multipart_items_roundtrip (n : Nat) (ctype : Bytes) (pp0 : PP) (items : 
   have hgood : GoodRt ⟨pp0.boundary, n + 4, items⟩ pp0 (chunks.flatten ++ []) := by
     refine ⟨⟨[], create_multipart_mpend n ctype pp0 hc hu⟩, hb0, ?_, Or.inl c6⟩
     rw [c6, List.nil_append, List.append_nil, hch]
-    exact .main _ (Or.inl ⟨c4, rfl⟩) (.bnd0 c3 c5 c9 rfl)
+    exact .main _ (Or.inl ⟨c4, rfl⟩) (.bnd0 pre c3 c5 c9 rfl hpre)
   obtain ⟨⟨_, hb, hI, hq⟩, hyes⟩ := feedAll_rt _ hcfg chunks pp0 [] hgood
   obtain ⟨hdone, hdel⟩ := quiescent_final hcfg hb hI hq
   refine ⟨feedAll pp0 chunks, ?_, hb.fault, hdel, hyes⟩
   have hfs : (feedAll pp0 chunks).fault.isSome = false := by rw [hb.fault]; rfl
   simp [run, hc, destroy, hfs, hdone, hb.xbuf]
+
+/-- **Round trip for rendered bodies — form fields and nested multipart/mixed containers, every split.** -/
+theorem multipart_items_roundtrip (n : Nat) (ctype : Bytes) (pp0 : PP) (items : List Item) (chunks : List Bytes)
+    (hc : create n ctype = some pp0) (hu : pp0.isUrl = false) (hB : 1 ≤ pp0.boundary.length)
+    (hit : ∀ it ∈ items, ItemOk (n + 4) pp0.boundary it)
+    (hch : chunks.flatten = encodeItems pp0.boundary items) :
+    ∃ pp, run n ctype chunks = some (pp, true) ∧ pp.fault = none ∧ Delivers pp.evs (flat items) ∧
+      ∀ pre ch post, chunks = pre ++ ch :: post → (feed (feedAll pp0 pre) ch).2 = true :=
+  multipart_items_roundtrip_gen n ctype pp0 items chunks [] hc hu hB hit (by intro k hk; cases hk) (by simpa using hch)
+
+/-- the preamble condition: `"--" ++ B` does not start inside the preamble (RFC 2046 §5.1.1: the preamble
+    is ignored; it normally ends with CRLF) -/
+def PreOk (B pre : Bytes) : Prop :=
+  occursIn (sDashDash ++ B) (pre ++ (sDashDash ++ B).take ((sDashDash ++ B).length - 1)) = false
+
+/-- **… with an arbitrary preamble before the first delimiter.** -/
+theorem multipart_items_roundtrip_pre (n : Nat) (ctype : Bytes) (pp0 : PP) (items : List Item) (chunks : List Bytes)
+    (pre : Bytes) (hc : create n ctype = some pp0) (hu : pp0.isUrl = false) (hB : 1 ≤ pp0.boundary.length)
+    (hit : ∀ it ∈ items, ItemOk (n + 4) pp0.boundary it) (hpre : PreOk pp0.boundary pre)
+    (hch : chunks.flatten = pre ++ encodeItems pp0.boundary items) :
+    ∃ pp, run n ctype chunks = some (pp, true) ∧ pp.fault = none ∧ Delivers pp.evs (flat items) ∧
+      ∀ pre ch post, chunks = pre ++ ch :: post → (feed (feedAll pp0 pre) ch).2 = true := by
+  refine multipart_items_roundtrip_gen n ctype pp0 items chunks pre hc hu hB hit ?_ hch
+  intro k hk
+  have hl : (sDashDash ++ pp0.boundary).length = 2 + pp0.boundary.length := by simp [sDashDash]; omega
+  have := noocc_slice (sDashDash ++ pp0.boundary) pre (afterB pp0.boundary items) (by omega) hpre k hk
+  rwa [hl] at this
 
 /-! ### the reference encoder `encodeMultipart` as a rendering -/
 
